@@ -23,6 +23,7 @@ from .values import (
     to_number,
     js_pow,
     norm_number,
+    to_integer,
 )
 from .errors import JSError, MemoryLimitError, TimeLimitError
 
@@ -923,7 +924,17 @@ class Context:
 
         def fromCharCode_fn(*args):
             """String.fromCharCode - create string from char codes."""
-            return "".join(chr(int(to_number(arg))) for arg in args)
+            units = []
+            for arg in args:
+                n = to_integer(arg)  # ToUint16: NaN and infinities count as 0
+                units.append(chr(0 if isinstance(n, float) else n & 0xFFFF))
+            text = "".join(units)
+            if any("\ud800" <= ch <= "\udbff" for ch in text):
+                # a high and a low surrogate in a row spell one character
+                text = text.encode("utf-16", "surrogatepass").decode(
+                    "utf-16", "surrogatepass"
+                )
+            return text
 
         string_constructor.set("fromCharCode", fromCharCode_fn)
 
